@@ -14,7 +14,7 @@ import (
 )
 
 func init() {
-	register("C10", "Decides the structural conditions of pod construction and of its agreement with the comparison: (R1) on every path of CreatePodFromDaemonSetReplicaSet the returned pod is built from a DeepCopy of replicaset.Spec.Template and, at the return, carries namespace ← replicaset.Namespace, label replica-set-name ← replicaset.Name, label extendeddaemonset-name ← replicaset.Labels[that key], annotation template-hash ← replicaset.Spec.TemplateGeneration, Tolerations ← append(·, StandardDaemonSetTolerations...); with node != nil either Spec.NodeName ← node.Name or Spec.Affinity ← ReplaceNodeNameNodeAffinity(·, node.Name), and the node-hash annotation ← GenerateHashFromEDSResourceNodeAnnotation(replicaset.Namespace, eds name, node.Annotations) exactly when that hash is non-empty; with scheme != nil SetControllerReference(replicaset, pod, scheme) — none of them overwritten later on the path, callee writes through the template pointer included (abstract last-writer simulation along every acyclic path); (R2) ReplaceNodeNameNodeAffinity: every return path installs the fresh single-term selector {metadata.name In [nodename]} or the rebuilt term list; the rebuilt list gets one term per original term (full index loop, no early exit, append on every iteration) and every appended term has the node-name requirement set, replaced or appended; GetNodeNameFromAffinity reads the same key; (R3) every Create(*Pod) reachable from a reconciler takes result #0 of that constructor called with Node and ExtendedDaemonsetSetting of one and the same creation candidate and with a scheme that traces back to a reconciler's scheme field; (R4) hash-key chain: the comparison reads the template-hash / node-hash annotation keys the constructor writes, compares the first with Replicaset.Spec.TemplateGeneration and the second with the same hash function over (replicaset.Namespace, ·, node annotations), and compareCurrentPodWithNewPod returns true only when both (and the setting check) returned true; (R5) source agreement: the constructor's writers of Containers[i].Resources are ordered by dominance (later wins); for every source written after the ExtendedDaemonsetSetting source (today: the node's annotations), every write by which the comparison overlays setting data onto the compared copy is guarded by a fact whose condition consults that source for the container (a lookup in the node's annotations with a key depending on the container name, directly or through a repository function whose results vary with such a lookup).", runC10)
+	register("C10", "Decides the structural conditions of pod construction and of its agreement with the comparison: (R1) on every path of CreatePodFromDaemonSetReplicaSet the returned pod is built from a DeepCopy of replicaset.Spec.Template and, at the return, carries namespace ← replicaset.Namespace, label replica-set-name ← replicaset.Name, label extendeddaemonset-name ← replicaset.Labels[that key], annotation template-hash ← replicaset.Spec.TemplateGeneration, Tolerations ← append(·, StandardDaemonSetTolerations...); with node != nil either Spec.NodeName ← node.Name or Spec.Affinity ← ReplaceNodeNameNodeAffinity(·, node.Name), and the node-hash annotation ← GenerateHashFromEDSResourceNodeAnnotation(replicaset.Namespace, eds name, node.Annotations) exactly when that hash is non-empty; with scheme != nil SetControllerReference(replicaset, pod, scheme) — none of them overwritten later on the path, callee writes through the template pointer included (abstract last-writer simulation along every acyclic path); (R2) ReplaceNodeNameNodeAffinity: every return path installs the fresh single-term selector {metadata.name In [nodename]} or the rebuilt term list; the rebuilt list gets one term per original term (full index loop, no early exit, append on every iteration) and every appended term has the node-name requirement set, replaced or appended; GetNodeNameFromAffinity reads the same key; (R3) every Create(*Pod) reachable from a reconciler takes result #0 of that constructor called with Node and ExtendedDaemonsetSetting of one and the same creation candidate and with a scheme that traces back to a reconciler's scheme field; (R4) hash-key chain: the comparison reads the template-hash / node-hash annotation keys the constructor writes, compares the first with Replicaset.Spec.TemplateGeneration and the second with the same hash function over (replicaset.Namespace, ·, node annotations), and compareCurrentPodWithNewPod returns true only when both (and the setting check) returned true; (R5) source agreement: the constructor's writers of Containers[i].Resources are ordered by dominance (later wins); for every source written after the ExtendedDaemonsetSetting source (today: the node's annotations), every write by which the comparison overlays setting data onto the compared copy is guarded by a fact whose condition consults that source for the container (a lookup in the node's annotations with a key depending on the container name, directly or through a repository function whose results vary with such a lookup); (R5b) the guard under which the constructor stores the annotation's resources and the guard under which the comparison overlays the setting are both expressed (as a disjunction over paths of conjunctions of facts) on the results of one shared lookup function, and for every result combination that function can return (its return-path table, unknown values tried both ways) exactly one of the two guards holds; (R6) in GenerateMD5PodTemplateSpec and GenerateHashFromEDSResourceNodeAnnotation no digest feed (Write / io.Copy / Fprint* / crypto Sum input) lies inside a range-over-map loop, no string or buffer accumulated in such a loop reaches the digest, and every slice appended to in such a loop that reaches the digest is passed to a sort call that dominates the feed.", runC10)
 }
 
 type c10Ctx struct {
@@ -23,6 +23,14 @@ type c10Ctx struct {
 	scheme, rs, node, setng *ssa.Parameter
 	ersKey, edsKey          string
 	md5Key, md5NodeKey      string
+	overlays                []c10Overlay // comparison overlay writes whose guard consults the node annotation
+	overlayBad              bool
+}
+
+type c10Overlay struct {
+	fn *ssa.Function
+	in ssa.Instruction
+	ff *FuncFacts
 }
 
 func c10Anchor(r *Run) *c10Ctx {
@@ -68,11 +76,15 @@ func runC10(r *Run) {
 	r.RuleDoc("C10.R3", "every Create(Pod) takes the constructor's result for one creation candidate and the reconciler's scheme")
 	r.RuleDoc("C10.R4", "hash-key chain between constructor and comparison (template hash, node hash)")
 	r.RuleDoc("C10.R5", "sources the constructor consults with higher precedence than the setting are consulted by the comparison's setting check")
+	r.RuleDoc("C10.R5b", "constructor and comparison agree on WHEN the node annotation overrides: for every result combination the shared lookup can return, exactly one of {constructor applies the annotation, comparison applies the setting check} holds")
+	r.RuleDoc("C10.R6", "hash determinism: no digest feed inside a range-over-map loop; map-collected data reaches the digest only through a slice sorted before the feeding loop")
 	r.Floor("C10.R1", 9)
 	r.Floor("C10.R2", 6)
 	r.Floor("C10.R3", 3)
 	r.Floor("C10.R4", 6)
 	r.Floor("C10.R5", 3)
+	r.Floor("C10.R5b", 2)
+	r.Floor("C10.R6", 4)
 	r.NotCovered("value-level round trip for every template / annotation / setting (e.g. that overlaying a setting onto a pod built from it is the identity, that DeepEqual sees no defaulted fields); that the node pointer of a creation candidate is non-nil (C01); that Parameters.EDSName equals the replica set's extendeddaemonset-name label; affinity terms that conflict with the node name; the error of overwriteResourcesFromNode being replaced by SetControllerReference's result")
 
 	c := c10Anchor(r)
@@ -85,6 +97,8 @@ func runC10(r *Run) {
 	c10HashChainPod(r, "C10.R4", false)
 	c.nodeHashChain()
 	c.sources()
+	c.overrideAgreement()
+	c10HashDeterminism(r)
 }
 
 // ---------------------------------------------------------------------------------------------
@@ -1092,6 +1106,7 @@ func c10RebuiltList(r *Run, fn *ssa.Function, k *keyer, L *ssa.Phi, aff *ssa.Par
 			}
 			// edge taken under a found-flag that is set only where an element is replaced by the requirement?
 			okEdge := false
+			flagWhy := ""
 			if iff, ok := q.Instrs[len(q.Instrs)-1].(*ssa.If); ok && len(q.Succs) == 2 && q.Succs[0] != q.Succs[1] {
 				cond := iff.Cond
 				pol := q.Succs[0] == A
@@ -1101,6 +1116,7 @@ func c10RebuiltList(r *Run, fn *ssa.Function, k *keyer, L *ssa.Phi, aff *ssa.Par
 				if ph, ok := cond.(*ssa.Phi); ok && pol {
 					okFlag := true
 					nTrue := 0
+					carried := enclosingLoopHeaders(fn, A)
 					seen := map[*ssa.Phi]bool{}
 					var walk func(ph *ssa.Phi)
 					walk = func(ph *ssa.Phi) {
@@ -1108,6 +1124,13 @@ func c10RebuiltList(r *Run, fn *ssa.Function, k *keyer, L *ssa.Phi, aff *ssa.Par
 							return
 						}
 						seen[ph] = true
+						if carried[ph.Block()] {
+							// the flag lives across iterations of a loop that encloses the append: its value at the
+							// top of an iteration is unknown (true may stem from an earlier term)
+							okFlag = false
+							flagWhy = "the flag guarding the append is carried across iterations of the term loop (set for an earlier term, it skips the requirement for a later one)"
+							return
+						}
 						for i, e := range ph.Edges {
 							if bv, isC := constBool(e); isC {
 								if bv {
@@ -1131,6 +1154,9 @@ func c10RebuiltList(r *Run, fn *ssa.Function, k *keyer, L *ssa.Phi, aff *ssa.Par
 			}
 			if !okEdge {
 				okTerm, whyTerm = false, fmt.Sprintf("the append at %s is reached from block %d without the requirement having been set, appended or (under a flag set only where it is) replaced", r.Prog.Pos(ap.Pos()), q.Index)
+				if flagWhy != "" {
+					whyTerm = fmt.Sprintf("the append at %s: %s", r.Prog.Pos(ap.Pos()), flagWhy)
+				}
 			}
 		}
 	}
@@ -1852,6 +1878,8 @@ func (c *c10Ctx) comparatorConsults(higher map[string]bool) {
 						}
 						return ok && fieldName(fa) == "Name" && typeName(fa.X.Type()) == pkgCoreV1+".Container"
 					}
+					// every path that reaches the write carries a fact that consults the annotation (a must-fact at
+					// the block is the common case; `if err == nil && found { continue }` needs the per-path view)
 					okC := false
 					var conds []string
 					for _, f := range ff.At(b) {
@@ -1860,12 +1888,41 @@ func (c *c10Ctx) comparatorConsults(higher map[string]bool) {
 							conds = append(conds, f.Key)
 						}
 					}
+					if !okC {
+						wpaths, okP := enumPaths(fn, ff.K, fn.Blocks[0], func(x *ssa.BasicBlock) bool { return x == b }, func(x *ssa.BasicBlock) bool { return x == b }, 5000)
+						r.paths += len(wpaths)
+						if okP && len(wpaths) > 0 {
+							okC = true
+							seenCond := map[string]bool{}
+							for _, wp := range wpaths {
+								found := false
+								for _, f := range wp.Facts {
+									if c10Consults(r.Prog, f.V, nodeRef, isName, 0) {
+										found = true
+										if !seenCond[f.Key] {
+											seenCond[f.Key] = true
+											conds = append(conds, f.Key)
+										}
+									}
+								}
+								if !found {
+									okC = false
+								}
+							}
+							sort.Strings(conds)
+						}
+					}
 					detail := "no guarding fact depends on a lookup of the node's annotations for the container: a pod created from {annotation, setting} on one container is judged outdated by the setting check on every sync"
 					if okC {
 						detail = "guarded by a fact on " + strings.ReplaceAll(strings.Join(conds, "; "), repoMod+"/", "")
 						if len(detail) > 160 {
 							detail = detail[:160] + "…"
 						}
+					}
+					if okC {
+						c.overlays = append(c.overlays, c10Overlay{fn: fn, in: in, ff: ff})
+					} else {
+						c.overlayBad = true
 					}
 					r.Check("C10.R5", construct+" consults "+h, pos, shortFunc(fn),
 						"the setting is overlaid for a container only under a fact that consults the node's resource annotation for that container (the constructor gives that source precedence over the setting)", okC, detail)
@@ -1929,4 +1986,569 @@ func c10SettingChain(v ssa.Value, d int) bool {
 		}
 	}
 	return false
+}
+
+// ---------------------------------------------------------------------------------------------
+// R5b: agreement on WHEN the node annotation overrides
+
+// c10Atom is a fact on one result of the shared lookup function.
+type c10Atom struct {
+	idx   int
+	isErr bool
+	want  bool // bool result: required value; error result: required "is nil"
+}
+
+func (a c10Atom) String() string {
+	if a.isErr {
+		if a.want {
+			return fmt.Sprintf("#%d==nil", a.idx)
+		}
+		return fmt.Sprintf("#%d!=nil", a.idx)
+	}
+	if a.want {
+		return fmt.Sprintf("#%d", a.idx)
+	}
+	return fmt.Sprintf("!#%d", a.idx)
+}
+
+// c10BaseResult resolves a value to "result #i of a call of function F", looking through repository
+// wrappers that simply forward a result of an inner call. ok=false if v is not a call result.
+func c10BaseResult(prog *Prog, v ssa.Value, depth int) (F *ssa.Function, idx int, ok bool) {
+	var call *ssa.Call
+	i := 0
+	switch x := v.(type) {
+	case *ssa.Extract:
+		call, _ = x.Tuple.(*ssa.Call)
+		i = x.Index
+	case *ssa.Call:
+		call = x
+	}
+	if call == nil {
+		return nil, 0, false
+	}
+	G := staticCallee(&call.Call)
+	if G == nil || !prog.IsRuleSite(G) {
+		return nil, 0, false
+	}
+	if depth < 3 {
+		var innerF *ssa.Function
+		innerIdx := -1
+		forwards := true
+		nRet := 0
+		for _, b := range G.Blocks {
+			ret := returnOf(b)
+			if ret == nil {
+				continue
+			}
+			nRet++
+			if i >= len(ret.Results) {
+				forwards = false
+				break
+			}
+			for _, o := range origins(ret.Results[i]) {
+				f2, i2, ok2 := c10BaseResult(prog, o, depth+1)
+				if !ok2 || (innerF != nil && (innerF != f2 || innerIdx != i2)) {
+					forwards = false
+					break
+				}
+				innerF, innerIdx = f2, i2
+			}
+		}
+		if forwards && innerF != nil && nRet > 0 {
+			return innerF, innerIdx, true
+		}
+	}
+	return G, i, true
+}
+
+// c10GuardDNF reads the condition under which block b is reached as a disjunction (one disjunct per
+// acyclic entry→b path) of conjunctions of facts about results of one lookup function; facts about
+// anything else are ignored. mixed=true if results of different lookup functions appear.
+func c10GuardDNF(prog *Prog, fn *ssa.Function, b *ssa.BasicBlock, takesNode func(*ssa.Function) bool) (F *ssa.Function, dnf [][]c10Atom, mixed, ok bool) {
+	k := newKeyer(fn)
+	paths, okP := enumPaths(fn, k, fn.Blocks[0], func(x *ssa.BasicBlock) bool { return x == b }, func(x *ssa.BasicBlock) bool { return x == b }, 5000)
+	if !okP || len(paths) == 0 {
+		return nil, nil, false, false
+	}
+	seen := map[string]bool{}
+	for _, p := range paths {
+		var atoms []c10Atom
+		add := func(f2 *ssa.Function, a c10Atom) {
+			if !takesNode(f2) {
+				return
+			}
+			if F != nil && F != f2 {
+				mixed = true
+				return
+			}
+			F = f2
+			atoms = append(atoms, a)
+		}
+		for _, f := range p.Facts {
+			if x, y, isEq := eqOperands(f.V); isEq {
+				var other ssa.Value
+				if isNilConst(y) {
+					other = x
+				} else if isNilConst(x) {
+					other = y
+				}
+				if other != nil {
+					if f2, i, okb := c10BaseResult(prog, other, 0); okb {
+						add(f2, c10Atom{idx: i, isErr: true, want: f.Pol})
+					}
+				}
+				continue
+			}
+			if f2, i, okb := c10BaseResult(prog, f.V, 0); okb {
+				if bt, isB := f.V.Type().Underlying().(*types.Basic); isB && bt.Info()&types.IsBoolean != 0 {
+					add(f2, c10Atom{idx: i, want: f.Pol})
+				}
+			}
+		}
+		sort.Slice(atoms, func(i, j int) bool { return atoms[i].String() < atoms[j].String() })
+		key := fmt.Sprint(atoms)
+		if !seen[key] {
+			seen[key] = true
+			dnf = append(dnf, atoms)
+		}
+	}
+	sort.Slice(dnf, func(i, j int) bool { return fmt.Sprint(dnf[i]) < fmt.Sprint(dnf[j]) })
+	return F, dnf, mixed, true
+}
+
+func (c *c10Ctx) overrideAgreement() {
+	r := c.r
+	pos := r.Prog.Pos(c.ctor.Pos())
+	sf := shortFunc(c.ctor)
+	const cAgree = "override condition agreement"
+	const cTable = "lookup result table"
+	if c.overlayBad || len(c.overlays) == 0 {
+		// R5 already reports that the comparison does not consult the annotation at all
+		o := r.Check("C10.R5b", cAgree, pos, sf, "decided only when the comparison consults the node annotation (R5)", true, "skipped: see C10.R5")
+		o.Trivial = true
+		o2 := r.Check("C10.R5b", cTable, pos, sf, "decided only when the comparison consults the node annotation (R5)", true, "skipped: see C10.R5")
+		o2.Trivial = true
+		return
+	}
+	takesNode := func(f *ssa.Function) bool {
+		for _, p := range f.Params {
+			if isPtrToNamed(p.Type(), pkgCoreV1, "Node") || isPtrToNamed(p.Type(), pkgStrategy, "NodeItem") {
+				return true
+			}
+		}
+		return false
+	}
+	// constructor side: stores to …Containers[].Resources whose value or guards depend on a node parameter
+	resPath := []string{"Spec", "Containers", "[]", "Resources"}
+	type side struct {
+		F     *ssa.Function
+		dnf   [][]c10Atom
+		where string
+	}
+	var applies []side
+	undec := ""
+	for _, fn := range sortedFuncs(r.Prog.reachableFuncs(c.ctor)) {
+		var node *ssa.Parameter
+		for _, p := range fn.Params {
+			if isPtrToNamed(p.Type(), pkgCoreV1, "Node") {
+				node = p
+			}
+		}
+		if node == nil {
+			continue
+		}
+		var ff *FuncFacts
+		for _, b := range fn.Blocks {
+			for _, in := range b.Instrs {
+				st, ok := in.(*ssa.Store)
+				if !ok {
+					continue
+				}
+				root, p := deepPath(st.Addr)
+				if _, isPar := root.(*ssa.Parameter); !isPar || !hasPrefixPath(p, resPath) {
+					continue
+				}
+				if ff == nil {
+					ff = computeFacts(fn)
+				}
+				dep := dependsOnV(st.Val, isParam(node))
+				for _, f := range ff.At(b) {
+					if dependsOnV(f.V, isParam(node)) {
+						dep = true
+					}
+				}
+				if !dep {
+					continue
+				}
+				F, dnf, mixed, okD := c10GuardDNF(r.Prog, fn, b, takesNode)
+				if mixed || F == nil || !okD {
+					undec = "the constructor's condition for applying the annotation (" + r.Prog.Pos(instrPos(st)) + ") is not expressed by facts on the results of one lookup function"
+					continue
+				}
+				applies = append(applies, side{F, dnf, r.Prog.Pos(instrPos(st))})
+			}
+		}
+	}
+	var overlays []side
+	for _, o := range c.overlays {
+		F, dnf, mixed, okD := c10GuardDNF(r.Prog, o.fn, o.in.Block(), takesNode)
+		if mixed || F == nil || !okD {
+			undec = "the comparison's condition for applying the setting check (" + r.Prog.Pos(instrPos(o.in)) + ") is not expressed by facts on the results of one lookup function"
+			continue
+		}
+		overlays = append(overlays, side{F, dnf, r.Prog.Pos(instrPos(o.in))})
+	}
+	if undec == "" && (len(applies) == 0 || len(overlays) == 0) {
+		undec = "no store of annotation resources found in the constructor"
+	}
+	var F *ssa.Function
+	for _, s := range append(append([]side{}, applies...), overlays...) {
+		if F != nil && F != s.F {
+			undec = "constructor and comparison decide on the results of different lookup functions (" + shortFunc(F) + " / " + shortFunc(s.F) + "): their agreement is not decidable by the rule"
+		}
+		F = s.F
+	}
+	if undec != "" {
+		r.Undecided("C10.R5b", cAgree, pos, sf, undec)
+		r.Undecided("C10.R5b", cTable, pos, sf, undec)
+		return
+	}
+	// return table of F
+	paths, _, okP := funcPaths(F, 5000)
+	r.paths += len(paths)
+	fsf := shortFunc(F)
+	if !okP {
+		r.Undecided("C10.R5b", cAgree, pos, sf, "path cap exceeded in "+fsf)
+		r.Undecided("C10.R5b", cTable, r.Prog.Pos(F.Pos()), fsf, "path cap exceeded")
+		return
+	}
+	used := map[int]bool{}
+	for _, s := range append(append([]side{}, applies...), overlays...) {
+		for _, conj := range s.dnf {
+			for _, a := range conj {
+				used[a.idx] = true
+			}
+		}
+	}
+	var idxs []int
+	for i := range used {
+		idxs = append(idxs, i)
+	}
+	sort.Ints(idxs)
+	// abstract value of result i on path p: 1 true/nil, 0 false/non-nil, -1 unknown
+	abstract := func(p *Path, ret *ssa.Return, i int, isErr bool) int {
+		if i >= len(ret.Results) {
+			return -1
+		}
+		res := p.Resolve(ret.Results[i])
+		if isErr {
+			if isNilConst(res) {
+				return 1
+			}
+			switch x := res.(type) {
+			case *ssa.MakeInterface:
+				return 0
+			case *ssa.Call:
+				switch calleeName(&x.Call) {
+				case "fmt.Errorf", "errors.New":
+					return 0
+				}
+			}
+			if p.Has(true, func(v ssa.Value, _ string) bool { return isNilCompareOf(v, func(y ssa.Value) bool { return y == res }) }) {
+				return 1
+			}
+			if p.Has(false, func(v ssa.Value, _ string) bool { return isNilCompareOf(v, func(y ssa.Value) bool { return y == res }) }) {
+				return 0
+			}
+			return -1
+		}
+		if b, isC := constBool(res); isC {
+			if b {
+				return 1
+			}
+			return 0
+		}
+		if p.Has(true, func(v ssa.Value, _ string) bool { return v == res }) {
+			return 1
+		}
+		if p.Has(false, func(v ssa.Value, _ string) bool { return v == res }) {
+			return 0
+		}
+		return -1
+	}
+	isErrIdx := map[int]bool{}
+	for _, s := range append(append([]side{}, applies...), overlays...) {
+		for _, conj := range s.dnf {
+			for _, a := range conj {
+				if a.isErr {
+					isErrIdx[a.idx] = true
+				}
+			}
+		}
+	}
+	holds := func(dnf [][]c10Atom, t map[int]int) bool {
+		for _, conj := range dnf {
+			all := true
+			for _, a := range conj {
+				if (t[a.idx] == 1) != a.want {
+					all = false
+				}
+			}
+			if all {
+				return true
+			}
+		}
+		return false
+	}
+	render := func(t map[int]int) string {
+		var out []string
+		for _, i := range idxs {
+			v := "false"
+			if isErrIdx[i] {
+				v = "non-nil"
+				if t[i] == 1 {
+					v = "nil"
+				}
+			} else if t[i] == 1 {
+				v = "true"
+			}
+			out = append(out, fmt.Sprintf("#%d=%s", i, v))
+		}
+		return strings.Join(out, " ")
+	}
+	okAll, why := true, ""
+	nTuples := 0
+	seenTuple := map[string]bool{}
+	for _, p := range paths {
+		ret := returnOf(p.Blocks[len(p.Blocks)-1])
+		base := map[int]int{}
+		var unknown []int
+		for _, i := range idxs {
+			base[i] = abstract(p, ret, i, isErrIdx[i])
+			if base[i] < 0 {
+				unknown = append(unknown, i)
+			}
+		}
+		for m := 0; m < 1<<len(unknown); m++ {
+			t := map[int]int{}
+			for k, v := range base {
+				t[k] = v
+			}
+			for bi, i := range unknown {
+				t[i] = (m >> bi) & 1
+			}
+			key := render(t)
+			if seenTuple[key] {
+				continue
+			}
+			seenTuple[key] = true
+			nTuples++
+			for _, ap := range applies {
+				for _, ov := range overlays {
+					a, o := holds(ap.dnf, t), holds(ov.dnf, t)
+					if a == o && okAll {
+						okAll = false
+						if a {
+							why = fmt.Sprintf("when %s returns (%s) at %s the constructor applies the annotation (%s) AND the comparison still overlays the setting (%s): the pod is judged outdated on every sync", fsf, key, r.Prog.Pos(instrPos(ret)), ap.where, ov.where)
+						} else {
+							why = fmt.Sprintf("when %s returns (%s) at %s the constructor does NOT apply the annotation (%s: needs %v) and the comparison does NOT check the setting either (%s: needs %v): the pod keeps the setting's values unchecked, a later change of the setting is never noticed", fsf, key, r.Prog.Pos(instrPos(ret)), ap.where, ap.dnf, ov.where, ov.dnf)
+						}
+					}
+				}
+			}
+		}
+	}
+	var ds []string
+	for _, ap := range applies {
+		ds = append(ds, fmt.Sprintf("constructor applies under %v", ap.dnf))
+	}
+	for _, ov := range overlays {
+		ds = append(ds, fmt.Sprintf("comparison overlays under %v", ov.dnf))
+	}
+	r.Check("C10.R5b", cTable, r.Prog.Pos(F.Pos()), fsf, "the lookup's return paths yield a finite table of result combinations", nTuples > 0, fmt.Sprintf("%d combinations of results %v over %d paths", nTuples, idxs, len(paths)))
+	if okAll {
+		why = strings.Join(ds, "; ")
+	}
+	r.Check("C10.R5b", cAgree, pos, sf,
+		"for every result combination the shared lookup can return, exactly one holds: the constructor stores the annotation's resources, or the comparison applies the setting check to the container", okAll, why)
+}
+
+// ---------------------------------------------------------------------------------------------
+// R6: hash determinism
+
+func c10HashDeterminism(r *Run) {
+	for _, name := range []string{"GenerateMD5PodTemplateSpec", "GenerateHashFromEDSResourceNodeAnnotation"} {
+		fn := r.Prog.Func(pkgComparison, name)
+		if fn == nil {
+			r.Fatal("anchor %s.%s not found", pkgComparison, name)
+			continue
+		}
+		c10Determinism(r, fn)
+	}
+}
+
+func c10IsDigest(v ssa.Value) bool {
+	os := origins(v)
+	if len(os) == 0 {
+		return false
+	}
+	for _, o := range os {
+		call, ok := o.(*ssa.Call)
+		if !ok {
+			return false
+		}
+		n := calleeName(&call.Call)
+		if !strings.HasPrefix(n, "crypto/") || !strings.Contains(n, ".New") {
+			return false
+		}
+	}
+	return true
+}
+
+func c10Determinism(r *Run, fn *ssa.Function) {
+	sf := shortFunc(fn)
+	pos := r.Prog.Pos(fn.Pos())
+	const cFeed = "digest fed outside map iteration"
+	const cSort = "map-collected data sorted before the digest"
+	mapHeader := map[*ssa.BasicBlock]bool{}
+	for _, b := range fn.Blocks {
+		for _, in := range b.Instrs {
+			if nx, ok := in.(*ssa.Next); ok {
+				if rg, ok := nx.Iter.(*ssa.Range); ok {
+					if _, isMap := rg.X.Type().Underlying().(*types.Map); isMap {
+						mapHeader[b] = true
+					}
+				}
+			}
+		}
+	}
+	inMapLoop := func(b *ssa.BasicBlock) bool {
+		for h := range enclosingLoopHeaders(fn, b) {
+			if mapHeader[h] {
+				return true
+			}
+		}
+		return false
+	}
+	type feed struct {
+		call ssa.CallInstruction
+		data []ssa.Value
+	}
+	var feeds []feed
+	for _, ci := range callsIn(fn) {
+		cc := ci.Common()
+		name := calleeName(cc)
+		if !cc.IsInvoke() && strings.HasPrefix(name, "crypto/") && strings.Contains(name, ".Sum") {
+			feeds = append(feeds, feed{ci, cc.Args})
+			continue
+		}
+		if cc.IsInvoke() && c10IsDigest(cc.Value) {
+			switch cc.Method.Name() {
+			case "Sum", "Size", "BlockSize", "Reset":
+				continue
+			}
+			feeds = append(feeds, feed{ci, cc.Args})
+			continue
+		}
+		var data []ssa.Value
+		isFeed := false
+		for _, a := range cc.Args {
+			if c10IsDigest(a) {
+				isFeed = true
+			} else {
+				data = append(data, a)
+			}
+		}
+		if isFeed {
+			feeds = append(feeds, feed{ci, data})
+		}
+	}
+	if len(feeds) == 0 {
+		r.Undecided("C10.R6", cFeed, pos, sf, "no crypto digest is fed in this function")
+		r.Undecided("C10.R6", cSort, pos, sf, "no crypto digest is fed in this function")
+		return
+	}
+	okFeed, whyFeed := true, ""
+	okSort, whySort := true, ""
+	sortCalls := func() []ssa.CallInstruction {
+		var out []ssa.CallInstruction
+		for _, ci := range callsIn(fn) {
+			switch calleeName(ci.Common()) {
+			case "sort.Strings", "sort.Slice", "sort.SliceStable", "sort.Sort", "sort.Stable", "slices.Sort", "slices.SortFunc", "slices.SortStableFunc":
+				out = append(out, ci)
+			}
+		}
+		return out
+	}()
+	for _, f := range feeds {
+		fb := f.call.Block()
+		fpos := r.Prog.Pos(f.call.Pos())
+		if inMapLoop(fb) {
+			okFeed, whyFeed = false, "the digest is fed at "+fpos+" inside a range over a map: the hash depends on Go's map iteration order, so an unchanged object hashes differently from one call to the next"
+			continue
+		}
+		// accumulations in map order that reach the fed data
+		var accs []*ssa.Call
+		allocs := map[*ssa.Alloc]bool{}
+		for _, d := range f.data {
+			dependsOnV(d, func(x ssa.Value) bool {
+				switch y := x.(type) {
+				case *ssa.Alloc:
+					allocs[y] = true
+				case *ssa.Call:
+					if _, isAp := isBuiltinCall(y, "append"); isAp && inMapLoop(y.Block()) {
+						accs = append(accs, y)
+					}
+				case *ssa.BinOp:
+					if bt, isB := y.Type().Underlying().(*types.Basic); isB && bt.Info()&types.IsString != 0 && y.Op == token.ADD && inMapLoop(y.Block()) {
+						okSort, whySort = false, "a string concatenated inside a range over a map ("+r.Prog.Pos(y.Pos())+") is fed to the digest at "+fpos
+					}
+				}
+				return false
+			})
+		}
+		// buffers / builders written inside a map loop and read for the digest
+		for _, ci := range callsIn(fn) {
+			if !inMapLoop(ci.Block()) {
+				continue
+			}
+			n := calleeName(ci.Common())
+			if !strings.Contains(n, ".Write") && !strings.Contains(n, "Fprint") {
+				continue
+			}
+			for _, a := range ci.Common().Args {
+				root, _ := deepPath(a)
+				if al, ok := root.(*ssa.Alloc); ok && allocs[al] {
+					okSort, whySort = false, "a buffer written inside a range over a map ("+r.Prog.Pos(ci.Pos())+") is fed to the digest at "+fpos
+				}
+			}
+		}
+		for _, acc := range accs {
+			sorted := false
+			for _, sc := range sortCalls {
+				if inMapLoop(sc.Block()) || !sc.Block().Dominates(fb) {
+					continue
+				}
+				after := false
+				for h := range enclosingLoopHeaders(fn, acc.Block()) {
+					if mapHeader[h] && h.Dominates(sc.Block()) && !loopBlocks(h)[sc.Block()] {
+						after = true
+					}
+				}
+				if !after {
+					continue
+				}
+				for _, a := range sc.Common().Args {
+					if dependsOnV(a, func(x ssa.Value) bool { return x == ssa.Value(acc) }) {
+						sorted = true
+					}
+				}
+			}
+			if !sorted {
+				okSort, whySort = false, "the slice appended to inside a range over a map ("+r.Prog.Pos(acc.Pos())+") reaches the digest at "+fpos+" without a sort call that dominates the feed: the hash depends on map iteration order"
+			}
+		}
+	}
+	r.Check("C10.R6", cFeed, pos, sf, "no Write / io.Copy / Fprint* / crypto Sum call feeding the digest lies inside a range-over-map loop", okFeed, whyFeed)
+	r.Check("C10.R6", cSort, pos, sf, "data accumulated while ranging over a map reaches the digest only through a slice that a sort call, dominating the feed, has ordered (json.Marshal output is ordered by encoding/json)", okSort, whySort)
 }
